@@ -25,6 +25,19 @@ def scenarios(seed, tier):
     for i in range(n):
         s = gen.gen_portfolio(random.Random(rnd.getrandbits(48)), tmax=8 if tier == 'quick' else 14, allow_mip=False, tz_prob=0.05,
                               kinds=['simple', 'contract', 'transport', 'ext_transport', 'storage', 'storage2', 'multi', 'orderbook', 'scaled', 'structured'])
+        if i % 3 == 2:
+            # uncoupled portfolio, also run split (some with nothing active in the first part of the horizon)
+            r3 = random.Random(rnd.getrandbits(48))
+            s = gen.gen_portfolio(r3, tmax=9 if tier == 'quick' else 14, allow_mip=False, tz_prob=0.05, kinds=['simple', 'transport', 'multi_nt', 'simple'],
+                                  allow_periodic=False, allow_freq=False)
+            s['split'] = r3.choice([2, 3])
+            if r3.random() < 0.5:
+                T = s['grid']['T_nominal']
+                st = gen.P(s['grid'], r3.randint(max(1, T // 2), max(1, T - 1)))
+                if gen.ok_local(st, s['grid']):
+                    for a in s['assets']:
+                        a['args']['start'] = gen.dtv(st)
+                        a['args'].pop('end', None)
         yield 'gen%d' % i, s
 
 
@@ -86,6 +99,18 @@ def run_case(scn, drv):
             r['violations'].append({'oracle': 'nodal_price_table', 'detail': 'no price column for node %s' % n, 'facts': {'what': 'missing_column'}})
             return r
         prices_by_pair[(int(t), str(n))] = float(pr[col].values[int(t)])
+    # reading the output a second time from the same result object gives the same table
+    try:
+        import eaopack as eao
+        with impl.Quiet():
+            out2 = eao.io.extract_output(rec['portf'], op, res, rec['prices'])
+        for (t, n), v in prices_by_pair.items():
+            w = float(out2['prices']['nodal price: ' + str(n)].values[int(t)])
+            if abs(w - v) > 1e-9 * max(1.0, abs(v)):
+                r['violations'].append({'oracle': 'nodal_price_table', 'detail': 'second extraction of the same result reports nodal price %.8g at node %s step %d, the first %.8g' % (w, n, t, v), 'facts': {'what': 'second_extraction'}})
+                break
+    except Exception as e:
+        r['violations'].append({'oracle': 'nodal_price_table', 'detail': 'second extraction of the same result raises %s' % type(e).__name__, 'facts': {'what': 'second_extraction_raises'}})
     # exact gap of the reported table
     opj = rec.get('op_json') or impl.problem_json(op)
     y = multipliers(op, res, prices_by_pair)
@@ -119,6 +144,35 @@ def run_case(scn, drv):
                                         'detail': 'injection %+g at node %s step %d: re-optimised value %.8g exceeds V + price*d = %.8g + %.6g*%g = %.8g' % (
                                             delta, n, t, res2.value, V, price, delta, V + price * delta),
                                         'facts': {'what': 'supergradient', 'sign': 'pos' if delta > 0 else 'neg'}})
+    # split optimisation: prices are reported at ORIGINAL steps; with nothing coupling the intervals the price table of the
+    # split run must itself be a set of marginal values of the unsplit optimum (exact gap with the split table)
+    if scn.get('split'):
+        try:
+            rs = pf.setup_split(scn, pf.split_interval(scn, tg, parts=scn['split']))
+            pf.solve_rec(rs)
+            r['evaluated'] += 1
+            feats.append('split')
+            if not isinstance(rs['res'], str) and rs['res'].duals is not None and rs['res'].duals.get('N') is not None:
+                prs = rs['out']['prices']
+                pb = {}
+                ok = True
+                for (t, n) in op.map_nodal_restr:
+                    col = 'nodal price: ' + str(n)
+                    v = prs[col].values[int(t)] if col in prs.columns else float('nan')
+                    if v != v:
+                        r['violations'].append({'oracle': 'nodal_price_split', 'detail': 'split run reports no nodal price for node %s step %d although there is dispatch' % (n, t), 'facts': {'what': 'missing_price'}})
+                        ok = False
+                        break
+                    pb[(int(t), str(n))] = float(v)
+                if ok and abs(float(rs['res'].value) - V) <= tol:
+                    y2 = multipliers(op, res, pb)
+                    m2 = drv.ok({'op': 'lagrangian', 'problem': opj, 'y': [fs(v) for v in y2]})
+                    gap2 = float(Fraction(m2['ub']) - Fraction(V))
+                    if gap2 > 5 * tol:
+                        r['violations'].append({'oracle': 'nodal_price_split', 'detail': 'the nodal prices reported by the split run (same optimal value, nothing couples the intervals) leave a Lagrangian gap of %.6g in the unsplit problem: they sit at wrong steps or nodes' % gap2,
+                                                'facts': {'what': 'split_gap'}})
+        except Exception as e:
+            feats.append('split-error:' + impl.err_class(e))
     vals = list(prices_by_pair.values())
     r['nontrivial'] = len(set(round(v, 6) for v in vals)) >= 2 and feasible_pert > 0
     feats.append('solved')
